@@ -264,6 +264,13 @@ def check_c07(rr: dict, w, sc: dict, truth: list[dict] | None, fkind: str, tz: s
             for pname, chan in sorted(tk["channels"].items()):
                 if pname not in passed:
                     continue
+                # context vs default is decided by the ACTUAL context in front of the node, not by the generator's
+                # bookkeeping of which keys earlier nodes create (a rename of a None-valued key, for one, creates nothing:
+                # whether it should is C01's question, not this oracle's)
+                if chan == "context" and pname not in prev_ctx and not _no_default(tk, pname):
+                    chan = "default"
+                elif chan == "default" and pname in prev_ctx:
+                    chan = "context"
                 if pname not in pars:
                     out.append(V("parameters", f"missing:{chan}", f"SER {k} ({proc.get('ref')}): parameter {pname!r} (resolved from {chan}, value {passed[pname]!r}) absent from processor.parameters={pars}"))
                 elif not _same(pars[pname], passed[pname]):
